@@ -22,6 +22,7 @@ import (
 	"crypto/sha256"
 	"encoding/hex"
 	"encoding/json"
+	"errors"
 	"fmt"
 	"io"
 	"math/rand"
@@ -39,16 +40,19 @@ import (
 	abcicli "github.com/tendermint/tendermint/abci/client"
 	abci "github.com/tendermint/tendermint/abci/types"
 	cfg "github.com/tendermint/tendermint/config"
+	"github.com/tendermint/tendermint/consensus"
 	"github.com/tendermint/tendermint/crypto"
 	"github.com/tendermint/tendermint/crypto/ed25519"
 	"github.com/tendermint/tendermint/evidence"
 	"github.com/tendermint/tendermint/libs/log"
 	mempl "github.com/tendermint/tendermint/mempool"
+	mempoolmock "github.com/tendermint/tendermint/mempool/mock"
 	mempoolv0 "github.com/tendermint/tendermint/mempool/v0"
 	tmstate "github.com/tendermint/tendermint/proto/tendermint/state"
 	tmproto "github.com/tendermint/tendermint/proto/tendermint/types"
 	"github.com/tendermint/tendermint/proxy"
 	sm "github.com/tendermint/tendermint/state"
+	"github.com/tendermint/tendermint/store"
 	"github.com/tendermint/tendermint/types"
 )
 
@@ -463,6 +467,89 @@ func (r *c06Replica) close() {
 	_ = r.stateDB.Close()
 }
 
+// ------------------------------------------------------------------ recovery nodes
+//
+// A recovery node applies EVERY block the way a node does that crashed between the application's
+// Commit and stateStore.Save (the last fail point of BlockExecutor.ApplyBlock): the live ApplyBlock
+// runs on the real state store with a Save that fails ("the crash"), then the node "restarts":
+// the state is loaded from the store and consensus.Handshaker.ReplayBlocks - store one ahead of the
+// state, application at the store's height - replays the block through the mock application built
+// from LoadLastABCIResponse.  One node runs with DiscardABCIResponses = false, one with true.
+
+type c06CrashStore struct {
+	sm.Store
+	armed bool
+	hit   bool
+}
+
+var errC06Crash = errors.New("c06: crash before the state is saved")
+
+func (s *c06CrashStore) Save(st sm.State) error {
+	if s.armed {
+		s.hit = true
+		return errC06Crash
+	}
+	return s.Store.Save(st)
+}
+
+type c06RecNode struct {
+	variant    string
+	stateDB    dbm.DB
+	realStore  sm.Store
+	crash      *c06CrashStore
+	blockStore *store.BlockStore
+	app        *c06App
+	client     abcicli.Client
+	blockExec  *sm.BlockExecutor
+	genDoc     *types.GenesisDoc
+	state      sm.State
+}
+
+func c06GenesisDoc(g c06Genesis) (*types.GenesisDoc, error) {
+	gvals := make([]types.GenesisValidator, len(g.Vals))
+	for i, v := range g.Vals {
+		k := c06KeyByID(v.ID)
+		if k == nil {
+			return nil, fmt.Errorf("unknown validator id %q", v.ID)
+		}
+		gvals[i] = types.GenesisValidator{Address: k.addr, PubKey: k.pub, Power: v.Power, Name: v.ID}
+	}
+	cp := c06ConcParams(g.Params)
+	return &types.GenesisDoc{GenesisTime: c06Base, ChainID: g.Chain, InitialHeight: g.IH, ConsensusParams: &cp,
+		Validators: gvals, AppHash: c06AppHashBytes(g.AppHash)}, nil
+}
+
+func newC06RecNode(variant string, discard bool, g c06Genesis) (*c06RecNode, error) {
+	gd, err := c06GenesisDoc(g)
+	if err != nil {
+		return nil, err
+	}
+	st, err := sm.MakeGenesisState(gd)
+	if err != nil {
+		return nil, err
+	}
+	st.Version.Consensus.App = uint64(g.AppVer)
+	n := &c06RecNode{variant: variant, stateDB: dbm.NewMemDB(), genDoc: gd, state: st}
+	n.realStore = sm.NewStore(n.stateDB, sm.StoreOptions{DiscardABCIResponses: discard})
+	if err := n.realStore.Save(st); err != nil {
+		return nil, err
+	}
+	n.crash = &c06CrashStore{Store: n.realStore}
+	n.blockStore = store.NewBlockStore(dbm.NewMemDB())
+	n.app = &c06App{replica: variant}
+	n.client = abcicli.NewLocalClient(nil, n.app)
+	if err := n.client.Start(); err != nil {
+		return nil, err
+	}
+	n.blockExec = sm.NewBlockExecutor(n.crash, log.NewNopLogger(), proxy.NewAppConnConsensus(n.client), mempoolmock.Mempool{}, sm.EmptyEvidencePool{})
+	return n, nil
+}
+
+func (n *c06RecNode) close() {
+	_ = n.client.Stop()
+	_ = n.stateDB.Close()
+}
+
 // ------------------------------------------------------------------ the run context
 
 type c06H struct {
@@ -471,6 +558,7 @@ type c06H struct {
 	run   c06Run
 	nm    *c06Names
 	A, B  *c06Replica
+	R     []*c06RecNode
 	rng   *rand.Rand
 	valsH map[int64]*types.ValidatorSet // validators of every committed height (for evidence construction)
 	timeH map[int64]time.Time
@@ -831,6 +919,17 @@ func (h *c06H) reset() {
 	if h.B, err = newC06Replica("B", g); err != nil {
 		h.t.Fatalf("run %s: %v", h.run.ID, err)
 	}
+	h.R = nil
+	for _, v := range []struct {
+		name    string
+		discard bool
+	}{{"stored", false}, {"stored_discard", true}} {
+		n, err := newC06RecNode(v.name, v.discard, g)
+		if err != nil {
+			h.t.Fatalf("run %s: %v", h.run.ID, err)
+		}
+		h.R = append(h.R, n)
+	}
 	if g.AppHash != "" {
 		h.nm.reg(g.AppHash, c06AppHashBytes(g.AppHash))
 	}
@@ -1047,6 +1146,23 @@ func (h *c06H) stepMake(s c06Step) *c06Made {
 	} else {
 		errB = gerr
 	}
+	// the nodes that applied every block so far through the recovery path judge the proposal too
+	accR := []map[string]interface{}{}
+	for _, n := range h.R {
+		e := map[string]interface{}{"variant": n.variant, "accepted": false, "err": "gossip"}
+		if blk, err := h.gossip(parts); err == nil {
+			verr := func() (err error) {
+				defer func() {
+					if x := recover(); x != nil {
+						err = fmt.Errorf("panic: %v", x)
+					}
+				}()
+				return n.blockExec.ValidateBlock(n.state, blk)
+			}()
+			e["accepted"], e["err"] = verr == nil, c06ErrCode("validate", verr)
+		}
+		accR = append(accR, e)
+	}
 	proj := h.projectBlock(pb)
 	m := &c06Made{block: block, parts: parts, blockB: blockB, pb: pb, proj: proj,
 		blockID: types.BlockID{Hash: block.Hash(), PartSetHeader: parts.Header()}}
@@ -1055,7 +1171,7 @@ func (h *c06H) stepMake(s c06Step) *c06Made {
 		"req":      map[string]interface{}{"txs": c06StrList(s.Txs), "ev": reqEv, "proposer": s.Proposer, "votes": votes, "fill": nfill},
 		"block":    proj,
 		"accepted": errA == nil, "err": classify(errA),
-		"acceptedB": errB == nil, "errB": classify(errB), "panic": panA + panB,
+		"acceptedB": errB == nil, "errB": classify(errB), "panic": panA + panB, "accR": accR,
 		"hashA": h.nm.blockHash(block.Hash()), "hashB": hashB,
 		"bid":   h.absBID(m.blockID),
 		"bytes": int64(pb.Size()), "partsBytes": parts.ByteSize(), "maxBytes": st.ConsensusParams.Block.MaxBytes,
@@ -1642,6 +1758,9 @@ func (h *c06H) stepApply(m *c06Made, s c06Step) bool {
 	for _, r := range []*c06Replica{A, B} {
 		r.app.next = c06Resp{valUpdates: vu, pu: pu, results: res, appHash: appHash}
 	}
+	for _, n := range h.R {
+		n.app.next = c06Resp{valUpdates: vu, pu: pu, results: res, appHash: appHash}
+	}
 	bidB := types.BlockID{Hash: m.blockB.Hash(), PartSetHeader: m.blockB.MakePartSet(types.BlockPartSizeBytes).Header()}
 	stA, errA, panA := c06Apply(A, m.blockID, m.block)
 	stB, errB, panB := c06Apply(B, bidB, m.blockB)
@@ -1649,7 +1768,8 @@ func (h *c06H) stepApply(m *c06Made, s c06Step) bool {
 	ev := map[string]interface{}{"ev": "Apply",
 		"resp": map[string]interface{}{"valUpdates": ups, "pu": s.Pu, "results": results, "appHash": s.AppHash},
 		"bid":  h.absBID(m.blockID), "bidB": h.absBID(bidB),
-		"ok": errA == nil, "okB": errB == nil, "err": "", "panic": panA + panB, "lv": []interface{}{}, "lp": []interface{}{}}
+		"ok": errA == nil, "okB": errB == nil, "err": "", "panic": panA + panB, "lv": []interface{}{}, "lp": []interface{}{},
+		"rec": []interface{}{}}
 	if errA != nil {
 		ev["err"] = c06Min1(errA.Error(), 160)
 	}
@@ -1716,6 +1836,12 @@ func (h *c06H) stepApply(m *c06Made, s c06Step) bool {
 		ldA, _ := A.stateStore.Load()
 		ldB, _ := B.stateStore.Load()
 		ev["sA"], ev["sB"], ev["ldA"], ev["ldB"] = digest(stA), digest(stB), digest(ldA), digest(ldB)
+		// the same block on the nodes that crash before the state is saved and recover from their stores
+		rec := []interface{}{}
+		for _, n := range h.R {
+			rec = append(rec, h.crashAndRecover(n, m, pre, appHash))
+		}
+		ev["rec"] = rec
 	} else {
 		ev["sA"], ev["sB"], ev["ldA"], ev["ldB"] = digest(A.state), digest(B.state), digest(A.state), digest(B.state)
 	}
@@ -1724,10 +1850,77 @@ func (h *c06H) stepApply(m *c06Made, s c06Step) bool {
 	return errA == nil && errB == nil
 }
 
+// SaveBlock, live ApplyBlock up to the failing Save, restart, Handshaker.ReplayBlocks
+func (h *c06H) crashAndRecover(n *c06RecNode, m *c06Made, pre sm.State, appHash []byte) (out map[string]interface{}) {
+	digest := func(st sm.State) string { return hex.EncodeToString(c06Sum(string(st.Bytes()))[:8]) }
+	out = map[string]interface{}{"variant": n.variant, "mode": "crash_replay", "ok": false, "err": "", "s": ""}
+	defer func() {
+		if x := recover(); x != nil {
+			out["ok"], out["err"] = false, c06Min1(fmt.Sprintf("panic: %v", x), 200)
+		}
+		out["post"] = h.projectState(n.state)
+	}()
+	blk, err := h.gossip(m.parts)
+	if err != nil {
+		out["err"] = "gossip: " + err.Error()
+		return out
+	}
+	parts := blk.MakePartSet(types.BlockPartSizeBytes)
+	bid := types.BlockID{Hash: blk.Hash(), PartSetHeader: parts.Header()}
+	// the commit the node saw for this block (finalizeCommit saves it with the block)
+	sigs := make([]types.CommitSig, pre.Validators.Size())
+	for i, val := range pre.Validators.Validators {
+		sigs[i] = h.signVote(c06KeyByAddr(val.Address), blk.Height, 0, bid, blk.Time.Add(1), int32(i)).CommitSig()
+	}
+	n.blockStore.SaveBlock(blk, parts, types.NewCommit(blk.Height, 0, bid, sigs))
+	if pre.LastBlockHeight == 0 && pre.InitialHeight > 1 {
+		// Handshaker.ReplayBlocks refuses "store height > state height + 1" for the first block of a chain
+		// whose initial height is not 1 (state height 0): no recovery path to compare there
+		out["mode"] = "live_first_block_of_initial_height_gt_1"
+		st, _, err := n.blockExec.ApplyBlock(n.state, bid, blk)
+		if err != nil {
+			out["err"] = c06Min1(err.Error(), 200)
+			return out
+		}
+		n.state = st
+	} else {
+		n.crash.armed, n.crash.hit = true, false
+		_, _, err = n.blockExec.ApplyBlock(n.state, bid, blk)
+		n.crash.armed = false
+		if !n.crash.hit {
+			out["err"] = c06Min1(fmt.Sprintf("live ApplyBlock ended before the state save: %v", err), 200)
+			return out
+		}
+		st0, err := n.realStore.Load() // what the restarting node finds
+		if err != nil {
+			out["err"] = "load: " + err.Error()
+			return out
+		}
+		hs := consensus.NewHandshaker(n.realStore, st0, n.blockStore, n.genDoc)
+		if _, err := hs.ReplayBlocks(st0, appHash, blk.Height, nil); err != nil {
+			out["err"] = c06Min1("ReplayBlocks: "+err.Error(), 200)
+			return out
+		}
+		st1, err := n.realStore.Load()
+		if err != nil {
+			out["err"] = "load after replay: " + err.Error()
+			return out
+		}
+		n.state = st1
+	}
+	out["ok"], out["s"] = true, digest(n.state)
+	return out
+}
+
 func (h *c06H) execute() {
 	h.reset()
 	defer h.A.close()
 	defer h.B.close()
+	defer func() {
+		for _, n := range h.R {
+			n.close()
+		}
+	}()
 	var made *c06Made
 	for _, s := range h.run.Steps {
 		switch s.T {
